@@ -22,6 +22,8 @@ Definition csc_transpose (A : csc F) : res (csc F) :=
   let nz := length (rowind A) in
   transpose_no_alloc A (mkcsc (ncols A) (nrows A) (transpose_colptr A) (repeat 0%nat nz) (repeat 0 nz)).
 
+Definition csc_set_vals {V} (A : csc V) (vx : list V) : csc V := mkcsc (nrows A) (ncols A) (colptr A) (rowind A) vx.
+
 Definition col_rows {V} (M : csc V) (j : nat) : list nat :=
   let lo := nth j (colptr M) 0%nat in let hi := nth (S j) (colptr M) 0%nat in firstn (hi - lo) (skipn lo (rowind M)).
 Definition memb (i : nat) (l : list nat) : bool := existsb (Nat.eqb i) l.
@@ -73,7 +75,7 @@ Definition scatter_product (X XT C : csc F) (wt : option (Vec * Vec * F)) (tmp :
         do cx <- upd cx q v ;;
         do tmp <- upd tmp i 0 ;;
         Ok (cx, tmp)) (cx, tmp)) (vals C, tmp) ;;
-  Ok (mkcsc (nrows C) (ncols C) (colptr C) (rowind C) cx, tmp).
+  Ok (csc_set_vals C cx, tmp).
 
 (* ---------- the merge walk of create_kkt_matrix ---------- *)
 (* while (k != kend && idx[k] < i) k++ *)
@@ -183,19 +185,27 @@ Record allmat := mkallmat {
   am_K : csc F; am_P2K : list nat; am_A2K : list nat; am_G2K : list nat;
   am_A : csc F; am_G : csc F; am_ATA : csc F; am_GTG : csc F; am_tmp : Vec
 }.
-Definition all_create (d : sdata) (rho delta : F) : res allmat :=
-  let n := sd_n d in
+(* init_workspace: cached transposes, the two products, tmp_scatter *)
+Definition all_workspace (d : sdata) (delta : F) : res (csc F * csc F * csc F * csc F * Vec) :=
   do A <- csc_transpose (sd_AT d) ;;
   do G <- csc_transpose (sd_GT d) ;;
   let tmp := repeat 0 (Nat.max (ncols A) (ncols G)) in
   do '(ATA, tmp) <- scatter_product A (sd_AT d) (prod_upper_pattern A (sd_AT d)) None tmp ;;
   do '(GTG, tmp) <- scatter_product G (sd_GT d) (prod_upper_pattern G (sd_GT d)) None tmp ;;
   do w <- qdiv 1 (1 + delta) ;;
-  let GTG := mkcsc (nrows GTG) (ncols GTG) (colptr GTG) (rowind GTG) (map (fun v => v * w) (vals GTG)) in
+  Ok (A, G, ATA, csc_set_vals GTG (map (fun v => v * w) (vals GTG)), tmp).
+
+(* create_kkt_matrix: the sum and the three maps *)
+Definition all_kkt (d : sdata) (rho delta : F) (ATA GTG : csc F) : res (csc F * list nat * list nat * list nat) :=
   do dinv <- qdiv 1 delta ;;
-  let K := kkt_sum n (sd_P d) ATA GTG rho dinv in
+  let K := kkt_sum (sd_n d) (sd_P d) ATA GTG rho dinv in
   do '(p2k, a2k, g2k) <- compute_maps K (sd_P d) ATA GTG
                             (repeat 0%nat (nnz (sd_P d)), repeat 0%nat (nnz ATA), repeat 0%nat (nnz GTG)) ;;
+  Ok (K, p2k, a2k, g2k).
+
+Definition all_create (d : sdata) (rho delta : F) : res allmat :=
+  do '(A, G, ATA, GTG, tmp) <- all_workspace d delta ;;
+  do '(K, p2k, a2k, g2k) <- all_kkt d rho delta ATA GTG ;;
   Ok (mkallmat K p2k a2k g2k A G ATA GTG tmp).
 
 Definition all_init (d : sdata) (rho delta : F) (ord : option (list nat)) : res akkt :=
